@@ -28,6 +28,7 @@ struct TCase {
     double lmin_f = 0.5, cut_rep_f = 0.3, cut_adh_f = 0.3;
     int normals_state = 1, lone = 0;
     double aff[3] = {1, 1, 0};  // affine distortion of the whole tissue (x' = sx x + shear y, y' = sy y): obtuse and needle-shaped triangles
+    unsigned rough = 0;      // != 0: every cell first undergoes real edge collapses / splits that leave unused node and face slots
     int threads = 1;         // the whole-tissue clauses hold whatever the order in which the threads accumulate the contact forces
     unsigned keep_mask = 0;  // != 0: after the first run the cells whose bit is clear are removed (the way the solver removes cells)
                              // and the SAME model instance runs again on the remaining population
@@ -36,6 +37,7 @@ struct TCase {
         w.d(lmin_f), w.d(cut_rep_f), w.d(cut_adh_f), w.i(normals_state), w.i(lone);
         w.u(keep_mask), w.i(threads);
         w.d(aff[0]), w.d(aff[1]), w.d(aff[2]);
+        w.u(rough);
         w.nl();
     }
     static TCase read(vf::Reader& r) {
@@ -45,6 +47,7 @@ struct TCase {
         if (r.more()) c.keep_mask = (unsigned)r.u();
         if (r.more()) c.threads = (int)r.i();
         if (r.more()) c.aff[0] = r.d(), c.aff[1] = r.d(), c.aff[2] = r.d();
+        if (r.more()) c.rough = (unsigned)r.u();
         return c;
     }
 };
@@ -60,6 +63,7 @@ static rc::Gen<TCase> genT() {
         c.lone = *irange(0, 9) == 0;
         // half of the cases continue with a second run of the same model on a shrunk population (1 cell left, or a random subset)
         c.threads = *rc::gen::element(1, 1, 1, 2, 3, 8);
+        if (*irange(0, 1)) c.rough = (unsigned)*irange(1, 1 << 20);
         if (*irange(0, 2) == 0) c.aff[0] = *uniform(1.0, 3.0), c.aff[1] = *uniform(0.35, 1.0), c.aff[2] = *uniform(-1.2, 1.2);
         if (*irange(0, 1)) c.keep_mask = *irange(0, 2) == 0 ? (1u << *irange(0, 4)) : (unsigned)*irange(1, 127);
         return c;
@@ -82,6 +86,11 @@ static std::string runT(const TCase& k, vf::Ctx& ctx) {
         b = tg::build(tis, 10., 1., &scope);
     } catch (const std::exception& e) {
         return std::string("tissue generator produced a cell the code rejects: ") + e.what();
+    }
+    if (k.rough) {
+        int done = 0;
+        for (size_t i = 0; i < b.cells.size(); i++) done += ct::leave_free_slots(b.cells[i], 3 + (int)((k.rough >> (i % 8)) % 6), k.rough + 7919 * i);
+        if (done) ctx.count("tissue_of_cells_with_unused_slots");
     }
     global_simulation_parameters sp;
     sp.min_edge_len_ = k.lmin_f * tis.edge;
